@@ -134,11 +134,15 @@ def run_heap_driver(v, drv, vec, tag, what):
         p = save_replay(PROP, "heap_%s.vec" % tag, src=vec)
         if os.path.exists(failout):
             save_replay(PROP, "heap_%s.failure.json" % tag, src=failout)
-        v.violation("heap replay (%s): the real timer heap deviates from spec/TimerHeap.tla: %s" % (what, err.strip()[:1500]), p)
+        v.violation("heap replay (%s): the real timer heap breaks an invariant of spec/TimerHeap.tla: %s" % (what, err.strip()[:1500]), p)
         return None
     if rc != 0:
         raise Broken("heap driver failed rc=%d: %s" % (rc, err[-1000:]))
-    return json.loads(out.strip().splitlines()[-1])
+    res = json.loads(out.strip().splitlines()[-1])
+    if res.get("drift"):
+        v.drift.append("heap replay (%s): the property-level invariants hold on the real heap, but %d comparisons with the "
+                       "transcription differ (re-transcribe spec/TimerHeap.tla); first: %s" % (what, res["drift"], res["first_drift"][:600]))
+    return res
 
 
 HEAP_INVS = "TypeOK NoErr MinimaAreReferenceMinima CountIsPopulation HeapOrder BackPointers SegmentsOK NeedsProgramOnMinChange"
@@ -148,13 +152,13 @@ def heap_layer(v, tier, seed):
     d = rundir(PROP)
     drv = build_driver("drv_timerheap")
     # (a) complete state graph, real constant C = 8, every transition replayed
-    bfs = [("q", 3, "{0, 1, 2}", "TRUE", 2)] if tier == "quick" else \
-          [("q", 3, "{0, 1, 2}", "TRUE", 2), ("t4", 4, "{0, 1}", "FALSE", 2), ("t3", 3, "{0, 1, 2}", "FALSE", 2)]
+    bfs = [("q", 3, "{0, 1, 2}", '"le"', 2)] if tier == "quick" else \
+          [("q", 3, "{0, 1, 2}", '"le"', 2), ("t4", 4, "{0, 1}", '"free"', 2), ("t3", 3, "{0, 1, 2}", '"free"', 2)]
     for tag, nt, keys, le, maxseg in bfs:
         csv = os.path.join(d, "heap_%s.csv" % tag)
         if os.path.exists(csv):
             os.unlink(csv)
-        cfg = cfg_from("TimerHeap_q.cfg", "TimerHeap_%s.cfg" % tag, NT=str(nt), Keys=keys, TgtLeDl=le,
+        cfg = cfg_from("TimerHeap_q.cfg", "TimerHeap_%s.cfg" % tag, NT=str(nt), Keys=keys, Pairs=le,
                        MaxSeg=str(maxseg), Emit='"%s"' % csv)
         r = tlc_must_pass("TimerHeap " + tag, "TimerHeap.tla", cfg, timeout=1500)
         v.add_model("TimerHeap_%s (NT=%d Keys=%s C=8, complete graph)" % (tag, nt, keys), r)
@@ -175,25 +179,39 @@ def heap_layer(v, tier, seed):
                                                           "full_structure_comparisons": res["comparisons"]})
             if sample and len(v.samples) < 2:
                 v.samples.append({"heap_transition": sample})
-    # (b) small segment capacity: the segment arithmetic with few timers (model only: C is a compile-time constant)
-    for tag, nt, keys, c, maxseg in ([("c2", 4, "{0, 1}", 2, 4)] if tier == "quick" else [("c2", 4, "{0, 1}", 2, 4), ("c2n5", 5, "{0, 1}", 2, 4), ("c4", 5, "{0, 1}", 4, 3)]):
-        cfg = cfg_from("TimerHeap_q.cfg", "TimerHeap_%s.cfg" % tag, NT=str(nt), Keys=keys, TgtLeDl="TRUE", C=str(c), MaxSeg=str(maxseg))
-        r = tlc_must_pass("TimerHeap " + tag, "TimerHeap.tla", cfg, timeout=1500)
-        v.add_model("TimerHeap_%s (NT=%d Keys=%s C=%d: segments 0..%d)" % (tag, nt, keys, c, maxseg), r)
-        if r.violated:
-            v.violation("spec TimerHeap (%s) violates %s" % (tag, r.violated), save_replay(PROP, "TimerHeap_%s.tlc.out" % tag, r.out))
+    # (b) small segment capacity C = 4: the segment arithmetic (3 segments) with 5-6 timers.  Model only:
+    #     C is a compile-time constant of the library; the real C = 8 reaches 5 segments in (d).
+    small = [("c4", 5, "{0, 1}", '"eq"', 4, 3)] if tier == "quick" else \
+            [("c4", 5, "{0, 1}", '"eq"', 4, 3), ("c4n6", 6, "{0, 1}", '"eq"', 4, 3), ("c4le", 5, "{0, 1}", '"le"', 4, 3)]
+    jobs = []
+    for tag, nt, keys, le, c, maxseg in small:
+        cfg = cfg_from("TimerHeap_q.cfg", "TimerHeap_%s.cfg" % tag, NT=str(nt), Keys=keys, Pairs=le, C=str(c), MaxSeg=str(maxseg))
+        jobs.append(("TimerHeap_%s (NT=%d Keys=%s pairs=%s C=%d: segments 0..%d)" % (tag, nt, keys, le, c, maxseg), cfg, None))
     # (c) spec mutants (non-vacuity)
-    for mut, base in (("left_child", "q"), ("never_right", "q"), ("stale_backptr", "q4"), ("no_needs_program", "q"), ("cap_no_table", "c2")):
-        if base == "c2":
-            cfg = cfg_from("TimerHeap_q.cfg", "TimerHeap_mut_%s.cfg" % mut, NT="4", Keys="{0, 1}", TgtLeDl="TRUE", C="2", MaxSeg="4", Mut='"%s"' % mut)
+    for mut, base in (("left_child", "q"), ("never_right", "q"), ("stale_backptr", "q4"), ("no_needs_program", "q"), ("cap_no_table", "c4")):
+        if base == "c4":
+            cfg = cfg_from("TimerHeap_q.cfg", "TimerHeap_mut_%s.cfg" % mut, NT="5", Keys="{0, 1}", Pairs='"eq"', C="4", MaxSeg="3", Mut='"%s"' % mut)
         elif base == "q4":
-            cfg = cfg_from("TimerHeap_q.cfg", "TimerHeap_mut_%s.cfg" % mut, NT="4", Keys="{0, 1}", TgtLeDl="TRUE", Mut='"%s"' % mut)
+            cfg = cfg_from("TimerHeap_q.cfg", "TimerHeap_mut_%s.cfg" % mut, NT="4", Keys="{0, 1}", Pairs='"le"', Mut='"%s"' % mut)
         else:
-            cfg = cfg_from("TimerHeap_q.cfg", "TimerHeap_mut_%s.cfg" % mut, TgtLeDl="TRUE", Mut='"%s"' % mut)
-        r = tlc_must_pass("TimerHeap mutant " + mut, "TimerHeap.tla", cfg, timeout=600)
-        if not r.violated:
-            raise Broken("spec mutant %s of TimerHeap not refuted: the invariants are vacuous in these bounds" % mut)
-        v.notes.setdefault("spec_mutants_refuted", []).append({"spec": "TimerHeap", "mutant": mut, "by": r.violated})
+            cfg = cfg_from("TimerHeap_q.cfg", "TimerHeap_mut_%s.cfg" % mut, Pairs='"le"', Mut='"%s"' % mut)
+        jobs.append(("TimerHeap mutant " + mut, cfg, mut))
+
+    def onejob(j):
+        name, cfg, mut = j
+        return tlc_must_pass(name, "TimerHeap.tla", cfg, timeout=2400 if tier == "thorough" else 600, workers=4,
+                             metaname="C11_" + os.path.basename(cfg), heap="4g")
+    with concurrent.futures.ThreadPoolExecutor(4) as ex:
+        results = list(ex.map(onejob, jobs))
+    for (name, cfg, mut), r in zip(jobs, results):
+        if mut is None:
+            v.add_model(name, r)
+            if r.violated:
+                v.violation("spec %s violates %s" % (name, r.violated), save_replay(PROP, os.path.basename(cfg) + ".tlc.out", r.out))
+        else:
+            if not r.violated:
+                raise Broken("spec mutant %s of TimerHeap not refuted: the invariants are vacuous in these bounds" % mut)
+            v.notes.setdefault("spec_mutants_refuted", []).append({"spec": "TimerHeap", "mutant": mut, "by": r.violated})
     # (d) long random behaviours, up to 40 timers: segments grow to 5 and shrink back; replayed with digests
     nproc, nsim, simlen = (4, 10, 260) if tier == "quick" else (8, 50, 400)
     csvs = [os.path.join(d, "heap_sim_%d.csv" % i) for i in range(nproc)]
